@@ -32,7 +32,7 @@ class C11(Prop):
     model_targets = ["theories/Websockets/ShimCheck.vo"]
     technique = "Coq proofs: base64 round trip (all byte strings), payload serialisation round trip, FIFO conservation invariants for the two bounded queues over all batchings/interleavings/capacities, injection characterisation; differential run of the real shim handlers against a real websocket backend"
     level_text = ("C11_fifo proves for every batching of client messages into data posts (also more than the queues hold), every server message sequence, every queue capacity and every interleaving of handler, writer, reader and polls that received-so-far ++ queued = sent, "
-                  "in both directions (no loss, duplication or reordering). C11_base64_roundtrip and C11_payload prove that type and payload (any bytes under protocol version 1) survive the serialisation; C11_inject characterises header injection (only objects with an object at "
+                  "in both directions (no loss, duplication or reordering); C11_delivery adds completeness: with capacities >= 1 some step is enabled while a message is under way, every step lowers the count of work under way, and at zero both sides hold exactly what was sent. C11_base64_roundtrip and C11_payload prove that type and payload (any bytes under protocol version 1) survive the serialisation; C11_inject characterises header injection (only objects with an object at "
                   "resource.headers change, only by gaining missing entries). The real handlers are run with a real gorilla backend: random text (multi-byte, escapes, <>&) and binary (all byte values, up to 1 MB) messages, batches of 1-40 per post, bursts of 30 server messages between polls; "
                   "the base64 text produced by the agent and the injected JSON are compared with the model.")
     level_note = ("Trusted: Coq kernel, srcfacts (both queue capacities), harness. Modelled, not verified: encoding/json (strings carry valid UTF-8 text unchanged; abstract JSON values), encoding/base64 (modelled exactly incl. the alphabet), gorilla/websocket, Go channels (FIFO with capacity). "
